@@ -42,6 +42,8 @@ def gen(rnd, n):
     # next to other text shaped like a placeholder (an e-mail address, a version suffix) — and nothing else is touched
     for mode in ('plain', 'env'):          # (capture: and @OUTPUT@ exclude each other)
         items.append((len(items), mode, ['me@BUILDHOST@OUTPUT@', '@X1@OUTDIR@/f', 'a@OUTPUT@b@ZZ@', '@OUTPUT@@OUTPUT@', 'user@example.com', '@NOTATEMPLATE@', '1.0@RC1@OUTPUT@.tar', '@@OUTPUT@@']))
+    # a program whose PATH contains '=' run with an environment: `env K=V <program>` would read the program as another assignment
+    items.append((len(items), 'env-eqprog', ['plain', 'a=b']))
     # commands that are pickled (an argument contains a newline) and whose argument lists differ only in where the boundaries fall
     for args in (['x\ny', 'z'], ['x\nyz'], ['x\n', 'yz'], ['-D', 'FOO=1\n'], ['-DFOO=1\n']):
         items.append((len(items), 'pickled', args))
@@ -57,6 +59,8 @@ def gen(rnd, n):
             lines.append(f"custom_target('p{i}', output: 'o{i}.out', command: {cmd}, capture: true)")
         elif mode == 'env':
             lines.append(f"custom_target('p{i}', output: 'o{i}.out', command: {cmd}, env: {{'K': 'v w', 'L': '$y'}})")
+        elif mode == 'env-eqprog':
+            lines.append(f"custom_target('p{i}', output: 'o{i}.out', command: [find_program('eq=dir/prog.py'), side / 'a{i}.json', " + ', '.join(mstr(a) for a in args) + "], env: {'K': 'v w', 'L': '$y'})")
         elif mode == 'feed':
             lines.append(f"custom_target('p{i}', output: 'o{i}.out', input: 'meson.build', command: {cmd}, feed: true)")
         elif mode == 'run':
@@ -242,6 +246,10 @@ def _argv_chunk(chunk):
             open(os.path.join(src, 'meson.build'), 'w').write(text)
             open(os.path.join(src, 'dump.py'), 'w').write(DUMPER)
             open(os.path.join(src, 'dump2.py'), 'w').write(DUMPER2)
+            os.makedirs(os.path.join(src, 'eq=dir'))
+            open(os.path.join(src, 'eq=dir', 'prog.py'), 'w').write('#!' + sys.executable + '\nimport json, os, sys\njson.dump(sys.argv[2:], open(sys.argv[1], "w"))\n'
+                                                                   'json.dump({"K": os.environ.get("K"), "L": os.environ.get("L")}, open(sys.argv[1] + ".env", "w"))\n')
+            os.chmod(os.path.join(src, 'eq=dir', 'prog.py'), 0o755)
             r = subprocess.run([sys.executable, os.path.join(repo, 'meson.py'), 'setup', build, src], capture_output=True, text=True, env=dict(os.environ, NINJA=stub_ninja(d)))
             if r.returncode != 0:
                 fails.append({'case': {'generator_seed': seed}, 'stage': 'argv-e2e', 'detail': 'setup failed: ' + (r.stdout + r.stderr)[-300:]})
@@ -289,7 +297,7 @@ def _argv_chunk(chunk):
                         continue
                     got = json.load(open(side))
                     exp = list(args) if mode == 'test' else [a.replace('\\', '/').replace('@OUTPUT@', f'o{i}.out').replace('@OUTDIR@', '.') for a in args]
-                    if mode == 'env':
+                    if mode in ('env', 'env-eqprog'):
                         ev_ = json.load(open(side + '.env')) if os.path.exists(side + '.env') else None
                         if ev_ != {'K': 'v w', 'L': '$y'}:
                             fails.append({'case': case, 'stage': 'argv-e2e', 'detail': f'env: the program saw the environment values {ev_!r} instead of K="v w", L="$y"'})
